@@ -1242,6 +1242,7 @@ func buildMessageFieldSchema(pkg *Package, context fieldContext, src protoreflec
 		return &OneofField{
 			fieldContext: context,
 			Ref:          ref,
+			ListRules:    ext.list.GetOneof(),
 		}, nil
 	}
 
